@@ -185,7 +185,68 @@ func ruleC19U2(r *Run) {
 			}
 		})
 		if rng == nil {
-			r.Check(name+" visits every member", false, p.pos(fn.Pos()), name, "the method does not range over transportMap")
+			// the loop lives in a helper that applies a function handed to it to every member
+			// (sumCounter(transport.Transport.RxBytesCounterValue)): the helper ranges over the whole map without an
+			// early exit and calls its parameter inside the loop, and the function handed in is the member method of
+			// the same name as this method
+			okH := false
+			detail := "the method does not range over transportMap"
+			allInstrs(fn, func(ins ssa.Instruction) {
+				c, isC := ins.(*ssa.Call)
+				if !isC {
+					return
+				}
+				h := c.Call.StaticCallee()
+				if h == nil || !p.Analysed(h) || h.Blocks == nil || fnPkgPath(h) != modPath+muPkg {
+					return
+				}
+				for i, a := range c.Call.Args {
+					if _, isSig := a.Type().Underlying().(*types.Signature); !isSig || i >= len(h.Params) {
+						continue
+					}
+					// the function handed in
+					var handed *ssa.Function
+					switch x := a.(type) {
+					case *ssa.Function:
+						handed = x
+					case *ssa.MakeClosure:
+						handed, _ = x.Fn.(*ssa.Function)
+					}
+					if handed == nil {
+						continue
+					}
+					target := handed.Name()
+					if handed.Synthetic != "" {
+						// a thunk or bound-method wrapper: the method it forwards to
+						allInstrs(handed, func(y ssa.Instruction) {
+							if cc := instrCall(y); cc != nil && cc.IsInvoke() {
+								target = cc.Method.Name()
+							} else if cc != nil && cc.StaticCallee() != nil {
+								target = cc.StaticCallee().Name()
+							}
+						})
+					}
+					// the helper: range over the members, parameter invoked in the loop, no early return
+					prm := ssa.Value(h.Params[i])
+					ranges, invoked, early := false, false, false
+					allInstrs(h, func(y ssa.Instruction) {
+						if x, ok := y.(*ssa.Range); ok && hasLeaf(p.Leaves(x.X, provOpts{}), "field:"+muPkg+".Transport.transportMap") {
+							ranges = true
+						}
+						if cc := instrCall(y); cc != nil && canonVal(cc.Value) == prm && inLoop(y) {
+							invoked = true
+						}
+						if _, isRet := y.(*ssa.Return); isRet && inLoop(y) {
+							early = true
+						}
+					})
+					if ranges && invoked && !early {
+						okH = target == m
+						detail = fmt.Sprintf("%s applies %s to every member (wanted: %s)", fnName(h), target, m)
+					}
+				}
+			})
+			r.Check(name+" visits every member", okH, p.pos(fn.Pos()), name, detail)
 			continue
 		}
 		// the loop: blocks that can reach the Next instruction again. A return inside the loop body = early exit.
@@ -375,31 +436,88 @@ func ruleC19U4(r *Run) {
 	if rl != nil {
 		name := fnName(rl)
 		ok := false
-		allInstrs(rl, func(ins ssa.Instruction) {
-			g, isGo := ins.(*ssa.Go)
-			if !isGo || !inLoop(g) {
+		failing := ""
+		// a reader is started per member: a go statement, or errgroup.Group.Go, inside the range over the members;
+		// its body (the function literal, or the method it merely calls) reads from the member and posts to readResCh
+		var readsAndPosts func(f *ssa.Function, d int) (bool, bool)
+		readsAndPosts = func(f *ssa.Function, d int) (reads, posts bool) {
+			if f == nil || f.Blocks == nil || d > 2 {
 				return
 			}
-			cl := closureOf(g.Call.Value)
-			if cl == nil {
-				return
-			}
-			reads := len(findCalls(cl, false, "/transport.Transport.Read", "/transport.Reader.Read", "/transport.ReadWriter.Read")) > 0
-			posts := false
-			allInstrs(cl, func(x ssa.Instruction) {
+			reads = len(findCalls(f, false, "/transport.Transport.Read", "/transport.Reader.Read", "/transport.ReadWriter.Read")) > 0
+			allInstrs(f, func(x ssa.Instruction) {
 				if cc := instrCall(x); cc != nil {
 					for _, a := range cc.Args {
 						if hasLeaf(p.Leaves(a, provOpts{}), "field:"+muPkg+".Transport.readResCh") {
 							posts = true
 						}
 					}
+					if cal := cc.StaticCallee(); cal != nil && p.Analysed(cal) && fnPkgPath(cal) == modPath+muPkg {
+						r2, p2 := readsAndPosts(cal, d+1)
+						reads, posts = reads || r2, posts || p2
+					}
 				}
 			})
-			if reads && posts {
+			return
+		}
+		allInstrs(rl, func(ins ssa.Instruction) {
+			var body *ssa.Function
+			viaGroup := false
+			switch x := ins.(type) {
+			case *ssa.Go:
+				if !inLoop(x) {
+					return
+				}
+				body = closureOf(x.Call.Value)
+				if body == nil {
+					body = x.Call.StaticCallee()
+				}
+			case *ssa.Call:
+				if !inLoop(x) || !isCallNamed(x, "golang.org/x/sync/errgroup.Group.Go") || len(x.Call.Args) < 2 {
+					return
+				}
+				body = closureOf(x.Call.Args[1])
+				viaGroup = true
+			}
+			if body == nil {
+				return
+			}
+			if rd, ps := readsAndPosts(body, 0); rd && ps {
 				ok = true
 			}
+			// in an errgroup with a derived context the first non-nil error cancels every other reader: a member
+			// reader must end with nil whatever happened to its member
+			if viaGroup {
+				var bad func(f *ssa.Function, d int)
+				bad = func(f *ssa.Function, d int) {
+					if f == nil || f.Blocks == nil || d > 2 {
+						return
+					}
+					allInstrs(f, func(y ssa.Instruction) {
+						ret, isRet := y.(*ssa.Return)
+						if !isRet || len(ret.Results) == 0 {
+							return
+						}
+						rv := retResults(ret)[len(ret.Results)-1]
+						if isNilConst(rv) {
+							return
+						}
+						if c2, isCall := rv.(*ssa.Call); isCall {
+							if cal := c2.Call.StaticCallee(); cal != nil && p.Analysed(cal) {
+								bad(cal, d+1)
+								return
+							}
+						}
+						failing = posOf(p, ret)
+					})
+				}
+				bad(body, 0)
+			}
 		})
-		r.Check(name+" one reader per member", ok, p.pos(rl.Pos()), name, "a goroutine per member reads from it and posts to readResCh")
+		if failing != "" {
+			ok = false
+		}
+		r.Check(name+" one reader per member", ok, p.pos(rl.Pos()), name, "a goroutine per member reads from it and posts to readResCh; a reader run in an errgroup returns nil on every path (a non-nil error at "+failing+" would cancel the readers of the healthy members)")
 	}
 	rd := r.method(muPkg, "Transport", "Read")
 	if rd != nil {
